@@ -110,6 +110,60 @@ def walk_etree_raw(el, index=None):
 
 
 # ------------------------------------------------------------------------------------------------
+# schedules: a walker object is (tree, start node); its stream must not depend on what else is being walked, on an
+# earlier abandoned iteration of the same object, or on how the consumer paces it (spec: MC_WalkSchedule.tla)
+SCHEDULES = ("lockstep", "shifted", "peek", "again", "again-deep")
+
+
+def dom_walker(node):
+    from html5lib import treewalkers
+    return treewalkers.getTreeWalker("dom")(node)
+
+
+def etree_walker(el, index):
+    return _rec_class()(el, index)
+
+
+def sched_run(name, wa, wb, k):
+    """run walker objects wa (and wb) under schedule `name`; returns [(walker, complete raw stream), ...] - every
+    returned stream is one that a solitary complete walk of that object must equal"""
+    import itertools
+    if name in ("lockstep", "shifted"):
+        ia, ib = iter(wa), iter(wb)
+        ra, rb = [], []
+        if name == "shifted":
+            for _ in range(k):
+                t = next(ia, None)
+                if t is not None:
+                    ra.append(t)
+        for x, y in itertools.zip_longest(ia, ib):
+            if x is not None:
+                ra.append(x)
+            if y is not None:
+                rb.append(y)
+        return [(wa, ra), (wb, rb)]
+    if name == "peek":
+        # the consumer of walk a starts another walk at some tokens, looks at a few tokens and drops it
+        ra = []
+        for i, t in enumerate(wa):
+            ra.append(t)
+            if t["type"] in ("StartTag", "Characters") and i % 2 == k % 2:
+                it = iter(wb)
+                for _ in range(2 + (i + k) % 5):
+                    next(it, None)
+                del it
+        return [(wa, ra)]
+    # the same walker object iterated again after an abandoned iteration
+    it = iter(wa)
+    for _ in range(k if name == "again" else 4 * k + 3):
+        next(it, None)
+    del it
+    if hasattr(wa, "events"):
+        wa.events = []
+    return [(wa, list(wa))]
+
+
+# ------------------------------------------------------------------------------------------------
 # parsing with both builders
 def parse_both(doc, frag, nsel, container="div"):
     """the same input parsed by the etree builder (full tree) and the dom builder; None if either raises"""
